@@ -88,10 +88,24 @@ func protocolFor(c *Concretizer, o *ROp, cfg *pCfg, req []byte) protocol.Protoco
 	p.MaxOperationHashLength = uint(std + cfg.HashLen)
 	p.MaxOperationSize = uint(len(req) + cfg.OpSize)
 
-	if d := c.buildDelta(o); d != nil {
+	d := c.buildDelta(o)
+
+	// the delta as the request carries it
+	var carried struct {
+		Delta map[string]interface{} `json:"delta"`
+	}
+
+	if json.Unmarshal(req, &carried) == nil && carried.Delta != nil {
+		d = carried.Delta
+	}
+
+	if d != nil {
 		p.MaxDeltaSize = uint(len(refJCSSimple(d)) + cfg.DeltaSize)
 
-		if !cfg.PatchEnabled {
+		if !cfg.PatchEnabled && o.way(2) == 1 {
+			// no action at all is enabled
+			p.Patches = nil
+		} else if !cfg.PatchEnabled {
 			var usedActions []string
 
 			if l, ok := d["patches"].([]interface{}); ok {
@@ -140,6 +154,16 @@ func evalParse(c *Concretizer, pc *pCase) (got parseOutcome, want parseOutcome, 
 	o := pc.Op
 	o.KeyNonce = pc.Cfg.Nonce != "none"
 	req, _ = c.buildRequest(&o, 0)
+
+	// the same request with insignificant white space around it (a third of the requests each way): the size
+	// limit and the bytes reported back are those of the request as it was sent
+	switch o.way(3) {
+	case 1:
+		req = append(append([]byte("\n  "), req...), " \r\n"...)
+	case 2:
+		req = append(req, "\n\n\n"...)
+	}
+
 	p := protocolFor(c, &o, &pc.Cfg, req)
 	orig := append([]byte(nil), req...)
 
